@@ -1,6 +1,7 @@
 import Csproto.Props.C04
 import Csproto.Model.GenDec
 import Csproto.Proofs.GenRecords
+import Csproto.Proofs.GenNested
 import Csproto.Bridge.Templates
 /-
   C07 — Unknown fields survive Unmarshal followed by Marshal.
@@ -70,5 +71,63 @@ theorem unknown_retained_in_order (S : Schema) (fast : Bool) (md : MD) (rs : Lis
   · injection h with h
     have h2 : unk = (rs.foldl (WRec.apply md) (initFields md, [])).2 := by rw [h]
     rw [h2, fold_unknown]; simp
+
+/-- what is retained at one level of a record tree: the raw bytes of that level's unknown records -/
+def unknownBytesN : List NRec → Bytes
+  | [] => []
+  | .flat (.unknown r) :: rs => r.wire ++ unknownBytesN rs
+  | _ :: rs => unknownBytesN rs
+
+theorem foldN_unknown (S : Schema) (md : MD) : ∀ (rs : List NRec) (st st' : List F × Bytes),
+    foldN S md rs st = .ok st' → st'.2 = st.2 ++ unknownBytesN rs
+  | [], st, st', h => by simp [foldN] at h; subst h; simp [unknownBytesN]
+  | r :: rs, st, st', h => by
+    simp only [foldN] at h
+    cases hr : r.applyN S md st with
+    | ok s1 =>
+      rw [hr] at h
+      have ih := foldN_unknown S md rs s1 st' h
+      rw [ih]
+      cases r with
+      | flat w =>
+        simp only [NRec.applyN] at hr
+        injection hr with hr
+        subst hr
+        cases w <;> simp [WRec.apply, unknownBytesN]
+      | msg idx fd i sub =>
+        simp only [NRec.applyN] at hr
+        cases hd : decodeMsgN S (S.md i) sub with
+        | ok p => rw [hd] at hr; injection hr with hr; subst hr; simp [unknownBytesN]
+        | err => rw [hd] at hr; cases hr
+        | panic => rw [hd] at hr; cases hr
+    | err => rw [hr] at h; cases h
+    | panic => rw [hr] at h; cases h
+
+/-- **unknown fields interleaved with scalar and message-typed fields** (nested / repeated / recursive
+    types): exactly the unknown records' raw bytes of the top level are retained, in wire order; the
+    same statement holds one level down for every nested message, whose own retained bytes are kept
+    inside its decoded value (`decodeMsgN` is applied recursively by `NRec.applyN`) -/
+theorem unknown_retained_in_order_nested (S : Schema) (fast : Bool) (md : MD) (rs : List NRec) (hok : OKs S md rs)
+    (fs : List F) (unk : Bytes) (h : unmarshal S fast md (wiresN rs) = .ok (fs, unk)) :
+    unk = unknownBytesN rs := by
+  rw [unmarshal_nested S fast md rs hok] at h
+  cases rs with
+  | nil =>
+    simp only [decodeMsgN] at h
+    split at h
+    · cases h
+    · injection h with h; injection h with _ h2; simp [unknownBytesN, ← h2]
+  | cons r rest =>
+    simp only [decodeMsgN] at h
+    cases hf : foldN S md (r :: rest) (initFields md, []) with
+    | ok st =>
+      rw [hf] at h
+      have := foldN_unknown S md (r :: rest) _ st hf
+      simp only [] at h
+      split at h
+      · cases h
+      · injection h with h; injection h with _ h2; rw [h2] at this; simpa using this
+    | err => rw [hf] at h; cases h
+    | panic => rw [hf] at h; cases h
 
 end Csproto.C07
